@@ -912,3 +912,347 @@ Proof.
   destruct Hc as [[Ht Hatt]|Hd]; [|left; exact Hd].
   right. destruct (invT_run cf tr Ht c Ha Hatt) as [?|?]; [right; assumption|left; assumption].
 Qed.
+
+(* ------- invariant C (cf_follow = false): a connected link is in the maps *)
+
+Definition is_susp_for (x : N) (c : cmd) : bool :=
+  match c with CSusp y _ => N.eqb x y | _ => false end.
+
+Lemma sp_app x q c : susp_pending x (q ++ [c]) = susp_pending x q || is_susp_for x c.
+Proof. unfold susp_pending. rewrite existsb_app. cbn. rewrite orb_false_r. reflexivity. Qed.
+
+Lemma sp_cons x c q : susp_pending x (c :: q) = is_susp_for x c || susp_pending x q.
+Proof. reflexivity. Qed.
+
+Definition InvCP (u su : list entry) (ns : N) (rq : list cmd) (lk : N -> lstate) : Prop :=
+  (forall x, In (CUnsub x) rq -> forall l b, lk l <> LConn x b) /\
+  (forall x, In (CUnsub x) rq -> x < ns) /\
+  (forall x b, In (CSusp x b) rq -> x < ns) /\
+  (forall l l' x b b', lk l = LConn x b -> lk l' = LConn x b' -> l = l') /\
+  (forall l x b, lk l = LConn x b -> In (x, l) (u ++ su)) /\
+  (forall l x b, lk l = LConn x b -> susp_pending x rq = false -> In (x, l) (if b then su else u)) /\
+  (forall pre post x b0, rq = pre ++ CSusp x b0 :: post -> susp_pending x post = false ->
+     forall l b, lk l = LConn x b -> b = b0).
+
+Definition InvC (s : st) : Prop := InvCP (upd s) (sus s) (nslot s) (rootq s) (links s).
+
+(* appending a command that is neither Unsubscribe nor Suspension; links may change at l
+   between states that are not LConn *)
+Lemma invC_push_other u su ns rq lk lk' c :
+  (forall x, c <> CUnsub x) -> (forall x b, c <> CSusp x b) ->
+  (forall l x b, lk' l = LConn x b <-> lk l = LConn x b) ->
+  InvCP u su ns rq lk -> InvCP u su ns (rq ++ [c]) lk'.
+Proof.
+  intros Hc1 Hc2 Hlk (C0 & Cf & Cf2 & Cu & C1 & C2 & C3).
+  assert (Hsp : forall x, susp_pending x (rq ++ [c]) = susp_pending x rq).
+  { intros x. rewrite sp_app. destruct c; cbn; try apply orb_false_r. exfalso. eapply Hc2. reflexivity. }
+  repeat split.
+  - intros x Hin l b E. apply in_app_or in Hin. destruct Hin as [Hin|[E0|[]]]; [|exact (Hc1 _ E0)].
+    apply Hlk in E. exact (C0 x Hin l b E).
+  - intros x Hin. apply in_app_or in Hin. destruct Hin as [Hin|[E0|[]]]; [exact (Cf x Hin)|destruct (Hc1 _ E0)].
+  - intros x b Hin. apply in_app_or in Hin. destruct Hin as [Hin|[E0|[]]]; [exact (Cf2 x b Hin)|destruct (Hc2 _ _ E0)].
+  - intros l l' x b b' E1 E2. apply Hlk in E1. apply Hlk in E2. eapply Cu; eassumption.
+  - intros l x b E. apply Hlk in E. eapply C1, E.
+  - intros l x b E Hp. apply Hlk in E. rewrite Hsp in Hp. exact (C2 l x b E Hp).
+  - intros pre post x b0 E Hp l b El. apply Hlk in El.
+    destruct (app_single_split _ _ _ _ _ E) as [(post' & -> & E')|(_ & _ & E0)]; [|destruct (Hc2 _ _ (eq_sym E0))].
+    rewrite sp_app in Hp. apply orb_false_iff in Hp. destruct Hp as [Hp _].
+    exact (C3 _ _ _ _ E' Hp l b El).
+Qed.
+
+Lemma invC_send_susp u su ns rq lk l x b0 b : lk l = LConn x b0 -> (forall y bb, lk y = LConn x bb -> x < ns) ->
+  InvCP u su ns rq lk -> InvCP u su ns (rq ++ [CSusp x b]) (fupd lk l (LConn x b)).
+Proof.
+  intros Hl HL3 (C0 & Cf & Cf2 & Cu & C1 & C2 & C3).
+  assert (Hother : forall l' y bb, fupd lk l (LConn x b) l' = LConn y bb -> l' <> l -> lk l' = LConn y bb /\ y <> x).
+  { intros l' y bb E Hn. rewrite fupd_neq in E by exact Hn. split; [exact E|].
+    intros ->. apply Hn. eapply Cu; eassumption. }
+  repeat split.
+  - intros y Hin l' bb E. apply in_app_or in Hin. destruct Hin as [Hin|[E0|[]]]; [|discriminate E0].
+    destruct (N.eq_dec l' l) as [->|Hn].
+    + rewrite fupd_eq in E. inversion E; subst. exact (C0 _ Hin _ _ Hl).
+    + rewrite fupd_neq in E by exact Hn. exact (C0 _ Hin _ _ E).
+  - intros y Hin. apply in_app_or in Hin. destruct Hin as [Hin|[E0|[]]]; [exact (Cf y Hin)|discriminate E0].
+  - intros y bb Hin. apply in_app_or in Hin. destruct Hin as [Hin|[E0|[]]]; [exact (Cf2 y bb Hin)|].
+    inversion E0; subst. eapply HL3, Hl.
+  - intros l1 l2 y b1 b2 E1 E2.
+    destruct (N.eq_dec l1 l) as [->|H1]; destruct (N.eq_dec l2 l) as [->|H2]; try reflexivity.
+    + rewrite fupd_eq in E1. inversion E1; subst. destruct (Hother _ _ _ E2 H2) as [_ Hne]. contradiction.
+    + rewrite fupd_eq in E2. inversion E2; subst. destruct (Hother _ _ _ E1 H1) as [_ Hne]. contradiction.
+    + rewrite fupd_neq in E1, E2 by assumption. eapply Cu; eassumption.
+  - intros l' y bb E. destruct (N.eq_dec l' l) as [->|Hn].
+    + rewrite fupd_eq in E. inversion E; subst. eapply C1, Hl.
+    + rewrite fupd_neq in E by exact Hn. eapply C1, E.
+  - intros l' y bb E Hp. rewrite sp_app in Hp. apply orb_false_iff in Hp. destruct Hp as [Hp Hp2].
+    destruct (N.eq_dec l' l) as [->|Hn].
+    + rewrite fupd_eq in E. inversion E; subst. cbn in Hp2. rewrite N.eqb_refl in Hp2. discriminate.
+    + rewrite fupd_neq in E by exact Hn. exact (C2 _ _ _ E Hp).
+  - intros pre post y b1 E Hp l' bb El.
+    destruct (app_single_split _ _ _ _ _ E) as [(post' & -> & E')|(_ & _ & E0)].
+    + rewrite sp_app in Hp. apply orb_false_iff in Hp. destruct Hp as [Hp Hp2].
+      destruct (N.eq_dec l' l) as [->|Hn].
+      * rewrite fupd_eq in El. inversion El; subst. cbn in Hp2. rewrite N.eqb_refl in Hp2. discriminate.
+      * rewrite fupd_neq in El by exact Hn. exact (C3 _ _ _ _ E' Hp _ _ El).
+    + inversion E0; subst. destruct (N.eq_dec l' l) as [->|Hn].
+      * rewrite fupd_eq in El. inversion El; subst. reflexivity.
+      * destruct (Hother _ _ _ El Hn) as [_ Hne]. contradiction.
+Qed.
+
+Lemma invC_send_unsub u su ns rq lk l x b : lk l = LConn x b -> x < ns ->
+  InvCP u su ns rq lk -> InvCP u su ns (rq ++ [CUnsub x]) (fupd lk l LIdle).
+Proof.
+  intros Hl Hx (C0 & Cf & Cf2 & Cu & C1 & C2 & C3).
+  assert (Hold : forall l' y bb, fupd lk l LIdle l' = LConn y bb -> l' <> l /\ lk l' = LConn y bb).
+  { intros l' y bb E. destruct (N.eq_dec l' l) as [->|Hn]; [rewrite fupd_eq in E; discriminate E|].
+    rewrite fupd_neq in E by exact Hn. tauto. }
+  repeat split.
+  - intros y Hin l' bb E. destruct (Hold _ _ _ E) as [Hn E']. apply in_app_or in Hin. destruct Hin as [Hin|[E0|[]]].
+    + exact (C0 _ Hin _ _ E').
+    + inversion E0; subst. apply Hn. eapply Cu; eassumption.
+  - intros y Hin. apply in_app_or in Hin. destruct Hin as [Hin|[E0|[]]]; [exact (Cf y Hin)|inversion E0; subst; exact Hx].
+  - intros y bb Hin. apply in_app_or in Hin. destruct Hin as [Hin|[E0|[]]]; [exact (Cf2 y bb Hin)|discriminate E0].
+  - intros l1 l2 y b1 b2 E1 E2. destruct (Hold _ _ _ E1) as [_ E1']. destruct (Hold _ _ _ E2) as [_ E2']. eapply Cu; eassumption.
+  - intros l' y bb E. destruct (Hold _ _ _ E) as [_ E']. eapply C1, E'.
+  - intros l' y bb E Hp. destruct (Hold _ _ _ E) as [_ E']. rewrite sp_app in Hp. cbn in Hp. rewrite orb_false_r in Hp.
+    exact (C2 _ _ _ E' Hp).
+  - intros pre post y b1 E Hp l' bb El. destruct (Hold _ _ _ El) as [_ El'].
+    destruct (app_single_split _ _ _ _ _ E) as [(post' & -> & E')|(_ & _ & E0)]; [|discriminate E0].
+    rewrite sp_app in Hp. apply orb_false_iff in Hp. destruct Hp as [Hp _].
+    exact (C3 _ _ _ _ E' Hp _ _ El').
+Qed.
+
+(* the root pops a command that is neither Subscribe, Unsubscribe nor Suspension *)
+Lemma invC_pop_misc u su ns c q lk :
+  (forall x, c <> CUnsub x) -> (forall x b, c <> CSusp x b) ->
+  InvCP u su ns (c :: q) lk -> InvCP u su ns q lk.
+Proof.
+  intros Hc1 Hc2 (C0 & Cf & Cf2 & Cu & C1 & C2 & C3). repeat split; try assumption.
+  - intros x Hin. apply C0. right. exact Hin.
+  - intros x Hin. apply Cf. right. exact Hin.
+  - intros x b Hin. apply (Cf2 x b). right. exact Hin.
+  - intros l x b E Hp. apply (C2 l x b E). rewrite sp_cons, Hp.
+    destruct c; cbn; try reflexivity. destruct (N.eqb_spec x s); [|reflexivity]. subst. exfalso. eapply Hc2. reflexivity.
+  - intros pre post x b0 E. apply (C3 (c :: pre) post x b0). rewrite E. reflexivity.
+Qed.
+
+Lemma invC_pop_sub u su ns l q lk : InvLP u su ns (CSub l :: q) lk ->
+  InvCP u su ns (CSub l :: q) lk ->
+  InvCP (m_ins (ns, l) u) su (ns + 1) q (fupd lk l (LConn ns false)).
+Proof.
+  intros (K1 & K2 & K3 & L2 & L3 & Q1 & Q2 & Q3) (C0 & Cf & Cf2 & Cu & C1 & C2 & C3).
+  assert (Hold : forall l' y bb, fupd lk l (LConn ns false) l' = LConn y bb ->
+                   (l' = l /\ y = ns /\ bb = false) \/ (l' <> l /\ lk l' = LConn y bb /\ y < ns)).
+  { intros l' y bb E. destruct (N.eq_dec l' l) as [->|Hn].
+    - rewrite fupd_eq in E. inversion E; subst. left. auto.
+    - rewrite fupd_neq in E by exact Hn. right. repeat split; [exact Hn|exact E|eapply L3, E]. }
+  repeat split.
+  - intros x Hin l' bb E. assert (x < ns) by (apply Cf; right; exact Hin).
+    destruct (Hold _ _ _ E) as [(_ & -> & _)|(_ & E' & _)]; [lia|].
+    exact (C0 x (or_intror Hin) _ _ E').
+  - intros x Hin. assert (x < ns) by (apply Cf; right; exact Hin). lia.
+  - intros x b Hin. assert (x < ns) by (apply (Cf2 x b); right; exact Hin). lia.
+  - intros l1 l2 y b1 b2 E1 E2.
+    destruct (Hold _ _ _ E1) as [(-> & -> & _)|(_ & E1' & Hy1)]; destruct (Hold _ _ _ E2) as [(-> & E3 & _)|(_ & E2' & Hy2)];
+      try reflexivity; try lia. eapply Cu; eassumption.
+  - intros l' y bb E. apply in_or_app.
+    destruct (Hold _ _ _ E) as [(-> & -> & _)|(_ & E' & Hy)].
+    + left. apply In_m_ins. right. reflexivity.
+    + specialize (C1 _ _ _ E'). apply in_app_or in C1. destruct C1 as [Hu|Hs]; [left|right; exact Hs].
+      apply In_m_ins. left. split; [exact Hu|cbn; lia].
+  - intros l' y bb E Hp.
+    destruct (Hold _ _ _ E) as [(-> & -> & ->)|(_ & E' & Hy)].
+    + apply In_m_ins. right. reflexivity.
+    + assert (H : In (y, l') (if bb then su else u)) by (apply (C2 _ _ _ E'); rewrite sp_cons; cbn; exact Hp).
+      destruct bb; [exact H|]. apply In_m_ins. left. split; [exact H|cbn; lia].
+  - intros pre post x b0 E Hp l' bb El.
+    assert (x < ns) by (apply (Cf2 x b0); right; rewrite E; apply in_or_app; right; left; reflexivity).
+    destruct (Hold _ _ _ El) as [(_ & -> & _)|(_ & El' & _)]; [lia|].
+    eapply (C3 (CSub l :: pre) post x b0); [rewrite E; reflexivity|exact Hp|exact El'].
+Qed.
+
+Lemma invC_pop_unsub u su ns x q lk :
+  InvCP u su ns (CUnsub x :: q) lk -> InvCP (m_del x u) (m_del x su) ns q lk.
+Proof.
+  intros (C0 & Cf & Cf2 & Cu & C1 & C2 & C3).
+  assert (Hne : forall l y b, lk l = LConn y b -> y <> x).
+  { intros l y b E ->. exact (C0 x (or_introl eq_refl) l b E). }
+  repeat split; try assumption.
+  - intros y Hin. apply C0. right. exact Hin.
+  - intros y Hin. apply Cf. right. exact Hin.
+  - intros y b Hin. apply (Cf2 y b). right. exact Hin.
+  - intros l y b E. specialize (C1 _ _ _ E). apply in_app_or in C1. apply in_or_app.
+    destruct C1 as [H|H]; [left|right]; apply In_m_del; (split; [exact H|cbn; eapply Hne, E]).
+  - intros l y b E Hp. assert (H : In (y, l) (if b then su else u)) by (apply (C2 _ _ _ E); rewrite sp_cons; cbn; exact Hp).
+    destruct b; apply In_m_del; (split; [exact H|cbn; eapply Hne, E]).
+  - intros pre post y b0 E. apply (C3 (CUnsub x :: pre) post y b0). rewrite E. reflexivity.
+Qed.
+
+Lemma invC_pop_susp u su ns x b0 q lk : InvLP u su ns (CSusp x b0 :: q) lk ->
+  InvCP u su ns (CSusp x b0 :: q) lk ->
+  let r := root_handle (MkSt u su ns q false false 0 (fun _ => MkClone false false false []) (fun _ => PIdle 0) lk
+                          (fun _ => MkChan [] true) [] [] []) (CSusp x b0) in
+  InvCP (upd r) (sus r) ns q lk.
+Proof.
+  intros (K1 & _) (C0 & Cf & Cf2 & Cu & C1 & C2 & C3) r.
+  (* where the entry of key x ends up, and that other keys are untouched *)
+  assert (Hmove : forall l b, lk l = LConn x b -> In (x, l) (if b0 then sus r else upd r)).
+  { intros l b E. specialize (C1 _ _ _ E). subst r. destruct b0; cbn.
+    - destruct (m_find x u) as [e|] eqn:Ef; cbn.
+      + apply m_find_some in Ef. destruct Ef as [He Hk].
+        assert (e = (x, l)) by (apply K1; [apply in_or_app; left; exact He|exact C1|exact Hk]). subst e.
+        apply In_m_ins. right. reflexivity.
+      + apply in_app_or in C1. destruct C1 as [H|H]; [|exact H].
+        exfalso. exact (m_find_none _ _ Ef _ H eq_refl).
+    - destruct (m_find x su) as [e|] eqn:Ef; cbn.
+      + apply m_find_some in Ef. destruct Ef as [He Hk].
+        assert (e = (x, l)) by (apply K1; [apply in_or_app; right; exact He|exact C1|exact Hk]). subst e.
+        apply In_m_ins. right. reflexivity.
+      + apply in_app_or in C1. destruct C1 as [H|H]; [exact H|].
+        exfalso. exact (m_find_none _ _ Ef _ H eq_refl). }
+  assert (Hkeep : forall y l, y <> x -> (In (y, l) u -> In (y, l) (upd r)) /\ (In (y, l) su -> In (y, l) (sus r))).
+  { intros y l Hy. subst r. destruct b0; cbn.
+    - destruct (m_find x u) as [e|] eqn:Ef; cbn; [|tauto]. apply m_find_some in Ef. destruct Ef as [_ Hk]. split; intros H.
+      + apply In_m_del. split; [exact H|exact Hy].
+      + apply In_m_ins. left. split; [exact H|cbn; congruence].
+    - destruct (m_find x su) as [e|] eqn:Ef; cbn; [|tauto]. apply m_find_some in Ef. destruct Ef as [_ Hk]. split; intros H.
+      + apply In_m_ins. left. split; [exact H|cbn; congruence].
+      + apply In_m_del. split; [exact H|exact Hy]. }
+  repeat split; try assumption.
+  - intros y Hin. apply C0. right. exact Hin.
+  - intros y Hin. apply Cf. right. exact Hin.
+  - intros y b Hin. apply (Cf2 y b). right. exact Hin.
+  - intros l y b E. apply in_or_app. destruct (N.eq_dec y x) as [->|Hy].
+    + specialize (Hmove _ _ E). destruct b0; [right|left]; exact Hmove.
+    + specialize (C1 _ _ _ E). apply in_app_or in C1. destruct (Hkeep y l Hy) as [H1 H2]. tauto.
+  - intros l y b E Hp. destruct (N.eq_dec y x) as [->|Hy].
+    + assert (b = b0) by (apply (C3 [] q x b0 eq_refl Hp l b E)). subst b. exact (Hmove _ _ E).
+    + assert (H : In (y, l) (if b then su else u)).
+      { apply (C2 _ _ _ E). rewrite sp_cons. cbn. destruct (N.eqb_spec y x); [contradiction|exact Hp]. }
+      destruct (Hkeep y l Hy) as [H1 H2]. destruct b; auto.
+  - intros pre post y b1 E. apply (C3 (CSusp x b0 :: pre) post y b1). rewrite E. reflexivity.
+Qed.
+
+Lemma invC_root_handle s c q : rootq s = c :: q -> InvL s -> InvC s -> InvC (root_handle (set_rootq q s) c).
+Proof.
+  unfold InvL, InvC. intros E HL H. des_st s. cbn in *. subst rq.
+  destruct c as [l|x|x b0|c|c|].
+  - cbn. apply invC_pop_sub; assumption.
+  - cbn. apply invC_pop_unsub, H.
+  - pose proof (invC_pop_susp u su ns x b0 q lk HL H) as H'. cbn zeta in H'.
+    destruct b0; cbn in *.
+    + destruct (m_find x u); cbn in *; exact H'.
+    + destruct (m_find x su); cbn in *; exact H'.
+  - cbn. eapply invC_pop_misc; [| |exact H]; discriminate.
+  - cbn. eapply invC_pop_misc; [| |exact H]; discriminate.
+  - cbn. eapply invC_pop_misc; [| |exact H]; discriminate.
+Qed.
+
+Lemma invC_step cf s a : cf_follow cf = false -> InvL s -> InvC s -> InvC (step cf s a).
+Proof.
+  intros Hcf HL H. destruct a; cbn [step]; try exact H.
+  - destruct (links s l) eqn:El; try exact H. destruct (root_dropped s); [exact H|].
+    unfold InvC in *. des_st s; cbn in *. eapply invC_push_other; [discriminate|discriminate| |exact H].
+    intros l' x b. destruct (N.eq_dec l' l) as [->|Hn]; [rewrite fupd_eq, El; split; discriminate|rewrite fupd_neq by exact Hn; tauto].
+  - destruct (links s l) as [| |x b0] eqn:El; try exact H.
+    assert (H' : InvC (set_rootq (rootq s ++ [CUnsub x]) (set_links (fupd (links s) l LIdle) s))).
+    { unfold InvC, InvL in *. des_st s; cbn in *. eapply invC_send_unsub; [exact El| |exact H].
+      destruct HL as (_ & _ & _ & _ & L3 & _). eapply L3, El. }
+    destruct (is_direct l); exact H'.
+  - destruct (links s l) as [| |x b0] eqn:El; try exact H. destruct (Bool.eqb b b0); [exact H|].
+    unfold InvC, InvL in *. des_st s; cbn in *. eapply invC_send_susp; [exact El| |exact H].
+    destruct HL as (_ & _ & _ & _ & L3 & _). intros y bb E. eapply L3, E.
+  - destruct (links s l) as [| |x b0]; try exact H. destruct (is_direct l); [exact H|].
+    destruct (ch_q (chans s x)) as [|[p n] q]; exact H.
+  - unfold InvC in *. des_st s; cbn in *. eapply invC_push_other; [discriminate|discriminate| |exact H]. tauto.
+  - destruct (root_term s || root_dropped s); [exact H|].
+    destruct (rootq s) as [|c q] eqn:E; [exact H|]. apply invC_root_handle; assumption.
+  - destruct (pub_idle s 0); exact H.
+  - unfold InvC in *. des_st s; cbn in *. eapply invC_push_other; [discriminate|discriminate| |exact H]. tauto.
+  - destruct (c_alive (clones s c) && negb (c_term (clones s c))); [|exact H].
+    destruct (c_q (clones s c)) as [|x q].
+    + destruct (root_dropped s); exact H.
+    + destruct x as [e|y|]; cbn [clone_handle]; rewrite ?Hcf; exact H.
+  - destruct (c_alive (clones s c) && pub_idle s c && negb (c =? 0)); [|exact H].
+    unfold InvC in *. des_st s; cbn in *. eapply invC_push_other; [discriminate|discriminate| |exact H]. tauto.
+  - destruct (pubs s p) as [n|n snap rest sent]; [destruct (pub_alive s p)|]; exact H.
+  - destruct (pubs s p) as [n|n snap [|[y l] rest] sent]; try exact H.
+    destruct (is_direct l); [exact H|]. destruct (negb (ch_rx (chans s y))); [exact H|].
+    destruct (N.of_nat (length (ch_q (chans s y))) <? cf_cap cf); exact H.
+  - destruct (pubs s p) as [n|n snap [|e rest] sent]; exact H.
+Qed.
+
+Lemma invC_init : InvC init.
+Proof.
+  unfold InvC, InvCP. cbn. repeat split; intros; try contradiction; try discriminate;
+    match goal with E : [] = ?pre ++ _ :: _ |- _ => destruct pre; discriminate E end.
+Qed.
+
+Lemma invLC_run cf tr : cf_follow cf = false -> InvL (run cf tr) /\ InvC (run cf tr).
+Proof.
+  intros Hcf. unfold run. apply (run_from_inv (fun s => InvL s /\ InvC s)).
+  - intros s a [HL HC]. split; [apply invL_step|apply invC_step]; assumption.
+  - split; [exact invL_init|exact invC_init].
+Qed.
+
+(* a link that is connected and not suspended (in its own eyes, with no suspension request of
+   its own still travelling) is in `updates`: the next snapshot of ANY publisher contains it *)
+Lemma active_link_in_updates cf tr l x : cf_follow cf = false ->
+  link_active (run cf tr) l x -> In (x, l) (upd (run cf tr)).
+Proof.
+  intros Hcf [E Hp]. destruct (invLC_run cf tr Hcf) as [_ (_ & _ & _ & _ & _ & C2 & _)].
+  exact (C2 l x false E Hp).
+Qed.
+
+(* ---------------- composite: exactly once while connected (trace level) *)
+
+Lemma run_app cf tr1 tr2 : run cf (tr1 ++ tr2) = run_from cf (run cf tr1) tr2.
+Proof. unfold run, run_from. apply fold_left_app. Qed.
+
+Definition Track (p n : N) (e : entry) (s : st) : Prop :=
+  (exists snap rest sent, pubs s p = PSending n snap rest sent /\ In e snap) \/
+  (exists snap b, In (p, n, snap, b) (completed s) /\ In e snap).
+
+Lemma track_step cf p n e s a : Track p n e s -> Track p n e (step cf s a).
+Proof.
+  intros H. destruct (pub_action a) eqn:Ha.
+  2:{ destruct (step_frame cf s a Ha) as (Ep & _ & Ec). unfold Track. rewrite Ep, Ec. exact H. }
+  destruct a as [| | | | | | | | | |q|q|q]; try discriminate Ha; clear Ha.
+  - destruct (step_begin_spec cf s q) as [E|(m & Eq & _ & Ep' & _ & Ec)]; [rewrite E; exact H|].
+    unfold Track. rewrite Ep', Ec. destruct H as [(snap & rest & sent & E1 & E2)|H]; [left|right; exact H].
+    destruct (N.eq_dec p q) as [->|Hn]; [rewrite Eq in E1; discriminate E1|].
+    rewrite fupd_neq by exact Hn. eauto.
+  - destruct (step_deliver_spec cf s q) as [E|(m & snap' & y & l & rest' & sent' & Eq & Ec & Hcase)]; [rewrite E; exact H|].
+    unfold Track. rewrite Ec. destruct H as [(snap & rest & sent & E1 & E2)|H]; [left|right; exact H].
+    destruct (N.eq_dec p q) as [->|Hn].
+    + rewrite Eq in E1. inversion E1; subst.
+      destruct Hcase as [(Ep' & _)|(Ep' & _)]; rewrite Ep', fupd_eq; eauto.
+    + destruct Hcase as [(Ep' & _)|(Ep' & _)]; rewrite Ep', fupd_neq by exact Hn; eauto.
+  - destruct (step_end_spec cf s q) as [E|(m & snap' & sent' & Eq & Ep' & _ & Ec)]; [rewrite E; exact H|].
+    unfold Track. rewrite Ep', Ec. destruct H as [(snap & rest & sent & E1 & E2)|(snap & b & E1 & E2)].
+    + destruct (N.eq_dec p q) as [->|Hn].
+      * rewrite Eq in E1. inversion E1; subst. right. eexists; eexists; split; [left; reflexivity|exact E2].
+      * left. rewrite fupd_neq by exact Hn. eauto.
+    + right. exists snap, b. split; [right; exact E1|exact E2].
+Qed.
+
+(* If link l is connected through slot x and unsuspended when publisher p starts update n,
+   then - whatever else happens - once that update_data call has returned, n has been handed
+   to l, unless l itself dropped its receiver (disconnected) in the meantime. *)
+Lemma exactly_once_while_connected cf tr1 tr2 l x p n : cf_follow cf = false ->
+  link_active (run cf tr1) l x ->
+  pubs (run cf tr1) p = PIdle n -> pub_alive (run cf tr1) p = true ->
+  let s2 := run cf (tr1 ++ ABegin p :: tr2) in
+  (exists m, pubs s2 p = PIdle m) ->
+  In (x, l, p, n) (delivered s2) \/ ch_rx (chans s2 x) = false.
+Proof.
+  intros Hcf Hact Hp Ha s2 [m Hm].
+  pose proof (active_link_in_updates cf tr1 l x Hcf Hact) as Hin.
+  assert (Ht : Track p n (x, l) s2).
+  { subst s2. rewrite run_app.
+    change (run_from cf (run cf tr1) (ABegin p :: tr2)) with (run_from cf (step cf (run cf tr1) (ABegin p)) tr2).
+    apply run_from_inv; [intros s a; apply track_step|].
+    left. exists (upd (run cf tr1)), (upd (run cf tr1)), false. split; [|exact Hin].
+    cbn [step]. rewrite Hp, Ha. set (s1 := run cf tr1). des_st s1. cbn. apply fupd_eq. }
+  destruct Ht as [(snap & rest & sent & E1 & _)|(snap & b & E1 & E2)]; [rewrite Hm in E1; discriminate E1|].
+  exact (finished_update_reached_snapshot cf _ p n snap b (x, l) E1 E2).
+Qed.
